@@ -17,7 +17,7 @@
 From Coq Require Import List Arith Bool ZArith NArith.
 Import ListNotations.
 From Stam Require Import Model.Offset Model.Store Model.TempId Model.DataValue Model.Limit Spec.StoreSpec.
-From Stam Require Model.Rel Model.Search.
+From Stam Require Model.Rel Model.Search Model.Forward.
 
 (** * Abstract syntax *)
 
@@ -744,100 +744,13 @@ Fixpoint scan_level (s : store) (e : env) (rt : rtype) (primary : bool) (cs : li
    reverse indices list the direct targets only.  The evaluator uses the first for RESOURCE as a
    filter of ANNOTATION queries, for DATA/KEY constraints as the source of RESOURCE queries and for
    ANNOTATION AS METADATA as the source of DATA / KEY queries; the indices everywhere else. *)
-(* The selectors of a Multi/Composite selector are stored sorted (AnnotationStore::subselectors:
-   text by resource and position, then resources, data sets, whole annotations by handle, keys,
-   data), those of a Directional selector as given; neighbours that name consecutive annotations
-   (whole annotations, or annotation selectors in BeginEnd mode covering the whole text of their
-   target) are merged into an internal RangedAnnotationSelector - and SelectorIter does not follow
-   the members of such a range. *)
-Fixpoint lex_ltb0 (a b : list nat) : bool :=
-  match a, b with
-  | [], [] => false
-  | [], _ => true
-  | _, [] => false
-  | x :: a', y :: b' => if x <? y then true else if y <? x then false else lex_ltb0 a' b'
-  end.
-Definition leaf_sortkey (s : store) (lf : leaf) : list nat :=
-  match lf with
-  | LText r _ _ | LAnnText _ r _ _ =>
-      match leaf_text s lf with (_, b, e) :: _ => [0; r; b; e] | [] => [0; r; 0; 0] end
-  | LRes r => [1; r]
-  | LSet d => [2; d]
-  | LAnn a => [3; a]
-  | LKey d k => [4; d; k]
-  | LData d x => [5; d; x]
-  end.
-Fixpoint ins_leaf_by (s : store) (x : leaf) (l : list leaf) : list leaf :=
-  match l with
-  | [] => [x]
-  | y :: l' => if lex_ltb0 (leaf_sortkey s x) (leaf_sortkey s y) then x :: l else y :: ins_leaf_by s x l'
-  end.
-Definition stored_leaves (s : store) (a : ann) : list leaf :=
-  if Nat.eqb (a_kind a) 3 then a_leaves a
-  else fold_left (fun acc x => ins_leaf_by s x acc) (a_leaves a) [].
-
-(* an annotation selector in BeginEnd mode that covers the whole text of its target *)
-Definition whole_anntext (s : store) (lf : leaf) : option nat :=
-  match lf with
-  | LAnnText a r t 1 =>
-      match get_ann s a with
-      | Some an =>
-          match ann_textsel s an, leaf_text s lf with
-          | Some (r', _, (pb, pe)), (_, b, e) :: _ =>
-              if Nat.eqb r r' && Nat.eqb b pb && Nat.eqb e pe then Some a else None
-          | _, _ => None
-          end
-      | None => None
-      end
-  | _ => None
-  end.
-(* 1: whole annotation a, 2: whole-text annotation selector on a *)
-Definition range_class (s : store) (lf : leaf) : option (nat * nat) :=
-  match lf with
-  | LAnn a => Some (1, a)
-  | _ => match whole_anntext s lf with Some a => Some (2, a) | None => None end
-  end.
-(* is the leaf at position i merged with a neighbour? *)
-Definition merged_at (s : store) (l : list leaf) (i : nat) : bool :=
-  match nth_error l i with
-  | Some lf =>
-      match range_class s lf with
-      | Some (c, a) =>
-          (match i with 0 => false | S j => match nth_error l j with
-                                            | Some lf' => match range_class s lf' with
-                                                          | Some (c', a') => Nat.eqb c c' && Nat.eqb (S a') a
-                                                          | None => false
-                                                          end
-                                            | None => false
-                                            end end)
-          || (match nth_error l (S i) with
-              | Some lf' => match range_class s lf' with
-                            | Some (c', a') => Nat.eqb c c' && Nat.eqb a' (S a)
-                            | None => false
-                            end
-              | None => false
-              end)
-      | None => false
-      end
-  | None => false
-  end.
-
-Fixpoint reach_leaves (s : store) (fuel : nat) (a : ann) : list leaf :=
-  match fuel with
-  | 0 => []
-  | S f =>
-      let l := stored_leaves s a in
-      flat_map (fun p =>
-                  let lf := snd p in
-                  lf :: match lf with
-                        | LAnn a' | LAnnText a' _ _ _ =>
-                            if merged_at s l (fst p) then []
-                            else match get_ann s a' with Some an' => reach_leaves s f an' | None => [] end
-                        | _ => []
-                        end) (combine (seq 0 (length l)) l)
-  end.
+(* The walk is C01's model of SelectorIter in recursive mode (Model/Forward.v: all_leaves;
+   C01_target_walk_terminates: the fuel is enough in every reachable store, and the closure spec).
+   Since 07da483 the iterator also follows the annotations that were merged into an internal
+   RangedAnnotationSelector, so the walk no longer depends on the stored order of the selectors or
+   on which neighbours have consecutive handles (before, this model reproduced that merging). *)
 Definition reaches (s : store) (P : leaf -> bool) (a : ann) : bool :=
-  existsb P (reach_leaves s (S (length (anns s))) a).
+  existsb P (Forward.all_leaves s a).
 Definition on_res_rec (s : store) (meta : bool) (r : nat) (a : ann) : bool :=
   reaches s (fun lf => match lf with
                        | LText r' _ _ => negb meta && Nat.eqb r' r
